@@ -1,10 +1,217 @@
 package checks
 
-// synthWitnesses returns generated witnesses that the test table lacks
-// (filled in as the checks that need them are built).
+import (
+	"archive/tar"
+	"archive/zip"
+	"bytes"
+	"encoding/binary"
+	"hash/crc32"
+	"strings"
+	"time"
+)
+
+// zipEntry is one member for the archive/zip based generator.
+type zipEntry struct {
+	Name    string
+	Body    []byte
+	Storage int  // 0 deflate+descriptor (Create), 1 store+descriptor (CreateHeader), 2 store, sizes in local header (CreateRaw)
+	Extra   bool // extended timestamp extra field (Modified set)
+}
+
+// buildZip writes the entries with the standard library's zip writer.
+func buildZip(entries []zipEntry) []byte {
+	var buf bytes.Buffer
+	w := zip.NewWriter(&buf)
+	for _, e := range entries {
+		fh := &zip.FileHeader{Name: e.Name}
+		if e.Extra {
+			fh.Modified = time.Date(2020, 1, 2, 3, 4, 6, 0, time.UTC)
+		}
+		switch e.Storage {
+		case 0:
+			fh.Method = zip.Deflate
+			f, err := w.CreateHeader(fh)
+			if err != nil {
+				panic(err)
+			}
+			f.Write(e.Body)
+		case 1:
+			fh.Method = zip.Store
+			f, err := w.CreateHeader(fh)
+			if err != nil {
+				panic(err)
+			}
+			f.Write(e.Body)
+		case 2:
+			fh.Method = zip.Store
+			fh.CRC32 = crc32.ChecksumIEEE(e.Body)
+			fh.CompressedSize64 = uint64(len(e.Body))
+			fh.UncompressedSize64 = uint64(len(e.Body))
+			f, err := w.CreateRaw(fh)
+			if err != nil {
+				panic(err)
+			}
+			f.Write(e.Body)
+		}
+	}
+	if err := w.Close(); err != nil {
+		panic(err)
+	}
+	return buf.Bytes()
+}
+
+func buildTar(format tar.Format, hdrs ...*tar.Header) ([]byte, error) {
+	var buf bytes.Buffer
+	w := tar.NewWriter(&buf)
+	for _, h := range hdrs {
+		hh := *h
+		hh.Format = format
+		if err := w.WriteHeader(&hh); err != nil {
+			return nil, err
+		}
+		if hh.Typeflag == tar.TypeReg && hh.Size > 0 && hh.Size <= 4096 {
+			w.Write(bytes.Repeat([]byte("x"), int(hh.Size)))
+		}
+	}
+	w.Flush()
+	return buf.Bytes(), nil
+}
+
+// oleHeader builds a compound-file header + directory sector with the given
+// root CLSID. v4 uses 4096-byte sectors.
+func oleHeader(v4 bool, clsid []byte, firstDirSector uint32) []byte {
+	sector := 512
+	if v4 {
+		sector = 4096
+	}
+	b := make([]byte, sector*(2+int(firstDirSector)))
+	copy(b, []byte{0xD0, 0xCF, 0x11, 0xE0, 0xA1, 0xB1, 0x1A, 0xE1})
+	b[24], b[25] = 0x3E, 0x00
+	if v4 {
+		b[26], b[27] = 0x04, 0x00
+	} else {
+		b[26], b[27] = 0x03, 0x00
+	}
+	b[28], b[29] = 0xFE, 0xFF
+	binary.LittleEndian.PutUint32(b[48:], firstDirSector)
+	off := sector*(1+int(firstDirSector)) + 80
+	copy(b[off:], clsid)
+	return b
+}
+
+func ftypBox(brand string) []byte {
+	return append([]byte{0, 0, 0, 0x18, 'f', 't', 'y', 'p'}, append([]byte(brand), 0, 0, 0, 0, 'i', 's', 'o', 'm', 'm', 'p', '4', '1')...)
+}
+
+// synthWitnesses returns generated witnesses that the repository's test table
+// lacks, so that every node of the tree is reached by at least one input, plus
+// structured archives / containers of varying shapes.
 func synthWitnesses() []Witness {
 	var out []Witness
 	add := func(name string, d []byte) { out = append(out, Witness{Name: "synth/" + name, Data: d}) }
-	_ = add
+
+	add("cbor", []byte{0xD9, 0xD9, 0xF7, 0xA1, 0x61, 0x61, 0x01})
+	aaf := make([]byte, 64)
+	copy(aaf, []byte{0xD0, 0xCF, 0x11, 0xE0, 0xA1, 0xB1, 0x1A, 0xE1, 0x41, 0x41, 0x46, 0x42, 0x0D, 0x00, 0x4F, 0x4D})
+	aaf[30] = 0x09
+	add("aaf", aaf)
+	add("apk", buildZip([]zipEntry{{Name: "AndroidManifest.xml", Body: []byte("<manifest/>")}, {Name: "classes.dex", Body: []byte("dex\n035")}}))
+	add("apk-after-manifest", buildZip([]zipEntry{{Name: "META-INF/MANIFEST.MF", Body: []byte("Manifest-Version: 1.0\n")}, {Name: "classes.dex", Body: []byte("dex")}}))
+	add("parquet", []byte("PAR1\x15\x04\x15\x10"))
+	add("exe", append([]byte("MZ\x90\x00\x03\x00\x00\x00\x04\x00\x00\x00\xff\xff\x00\x00"), make([]byte, 48)...))
+	add("torrent", []byte("d8:announce35:udp://tracker.example.org:80/announcee"))
+	for i, t := range []byte{1, 2, 3, 4} {
+		elf := make([]byte, 64)
+		copy(elf, []byte{0x7F, 'E', 'L', 'F', 2, 1, 1, 0})
+		elf[16] = t
+		add("elf-le-"+string('0'+rune(i)), elf)
+		elf2 := append([]byte{}, elf...)
+		elf2[5], elf2[16], elf2[17] = 2, 0, t
+		add("elf-be-"+string('0'+rune(i)), elf2)
+	}
+	add("macho-64le", []byte{0xCF, 0xFA, 0xED, 0xFE, 7, 0, 0, 1, 3, 0, 0, 0, 2, 0, 0, 0})
+	add("macho-32be", []byte{0xFE, 0xED, 0xFA, 0xCE, 0, 0, 0, 7, 0, 0, 0, 3})
+	add("macho-fat", []byte{0xCA, 0xFE, 0xBA, 0xBE, 0, 0, 0, 2, 0, 0, 0, 7})
+	for _, b := range []string{"hevc", "hevx", "msf1", "hevm", "mj2s", "mjp2", "dby1", "dvr1", "M4V ", "M4VH", "heic", "mif1", "avif", "3gp4", "3g2a", "M4A ", "F4A ", "mqt ", "isom", "qt  "} {
+		add("ftyp-"+strings.TrimSpace(b), ftypBox(b))
+	}
+	add("jxs", []byte{0x00, 0x00, 0x00, 0x0C, 0x4A, 0x58, 0x53, 0x20, 0x0D, 0x0A, 0x87, 0x0A, 0, 0, 0, 0x14})
+	add("icns", []byte("icns\x00\x00\x10\x00ic07"))
+
+	// zip family
+	ct := zipEntry{Name: "[Content_Types].xml", Body: []byte(`<?xml version="1.0"?><Types/>`)}
+	rels := zipEntry{Name: "_rels/.rels", Body: []byte(`<Relationships/>`)}
+	for _, k := range []struct{ n, part string }{{"docx", "word/document.xml"}, {"xlsx", "xl/workbook.xml"}, {"pptx", "ppt/presentation.xml"}} {
+		add("ooxml-"+k.n, buildZip([]zipEntry{ct, rels, {Name: k.part, Body: []byte("<x/>")}}))
+		add("ooxml-"+k.n+"-stored", buildZip([]zipEntry{{Name: ct.Name, Body: ct.Body, Storage: 2}, {Name: k.part, Body: []byte("<x/>"), Storage: 2}}))
+	}
+	add("jar", buildZip([]zipEntry{{Name: "META-INF/MANIFEST.MF", Body: []byte("Manifest-Version: 1.0\n")}, {Name: "a/B.class", Body: []byte{0xCA, 0xFE, 0xBA, 0xBE}}}))
+	for _, t := range []string{"application/vnd.oasis.opendocument.text", "application/vnd.oasis.opendocument.text-template", "application/vnd.oasis.opendocument.spreadsheet", "application/vnd.oasis.opendocument.spreadsheet-template", "application/vnd.oasis.opendocument.presentation", "application/vnd.oasis.opendocument.presentation-template", "application/vnd.oasis.opendocument.graphics", "application/vnd.oasis.opendocument.graphics-template", "application/vnd.oasis.opendocument.formula", "application/vnd.oasis.opendocument.chart", "application/epub+zip", "application/vnd.sun.xml.calc"} {
+		add("odf-"+t, buildZip([]zipEntry{{Name: "mimetype", Body: []byte(t), Storage: 2}, {Name: "content.xml", Body: []byte("<x/>")}}))
+	}
+	add("zip-plain", buildZip([]zipEntry{{Name: "README.txt", Body: []byte("hello")}, {Name: "b/c.txt", Body: []byte("world")}}))
+	add("zip-empty", buildZip(nil))
+
+	// tar family
+	for _, f := range []tar.Format{tar.FormatUSTAR, tar.FormatPAX, tar.FormatGNU} {
+		if b, err := buildTar(f, &tar.Header{Name: "dir/file.txt", Mode: 0o644, Size: 5, Typeflag: tar.TypeReg, ModTime: time.Unix(1700000000, 0)}); err == nil {
+			add("tar-"+f.String(), b)
+		}
+		if b, err := buildTar(f, &tar.Header{Name: strings.Repeat("n", 120), Mode: 0o644, Size: 0, Typeflag: tar.TypeReg, ModTime: time.Unix(1700000000, 0)}); err == nil {
+			add("tar-longname-"+f.String(), b)
+		}
+	}
+
+	// OLE family
+	clsids := map[string][]byte{
+		"doc": {0x06, 0x09, 0x02, 0x00, 0x00, 0x00, 0x00, 0x00, 0xc0, 0x00, 0x00, 0x00, 0x00, 0x00, 0x00, 0x46},
+		"xls": {0x10, 0x08, 0x02, 0x00, 0x00, 0x00, 0x00, 0x00, 0xc0, 0x00, 0x00, 0x00, 0x00, 0x00, 0x00, 0x46},
+		"ppt": {0x10, 0x8d, 0x81, 0x64, 0x9b, 0x4f, 0xcf, 0x11, 0x86, 0xea, 0x00, 0xaa, 0x00, 0xb9, 0x29, 0xe8},
+		"pub": {0x01, 0x12, 0x02, 0x00, 0x00, 0x00, 0x00, 0x00, 0x00, 0xC0, 0x00, 0x00, 0x00, 0x00, 0x00, 0x46},
+		"msg": {0x0B, 0x0D, 0x02, 0x00, 0x00, 0x00, 0x00, 0x00, 0xC0, 0x00, 0x00, 0x00, 0x00, 0x00, 0x00, 0x46},
+		"msi": {0x84, 0x10, 0x0C, 0x00, 0x00, 0x00, 0x00, 0x00, 0xC0, 0x00, 0x00, 0x00, 0x00, 0x00, 0x00, 0x46},
+		"none": make([]byte, 16),
+	}
+	for _, k := range []string{"doc", "xls", "ppt", "pub", "msg", "msi", "none"} {
+		add("ole3-"+k, oleHeader(false, clsids[k], 0))
+		add("ole3-"+k+"-sec2", oleHeader(false, clsids[k], 2))
+	}
+	add("ole4-doc", oleHeader(true, clsids["doc"], 0))
+	o := oleHeader(false, clsids["none"], 1)
+	copy(o[512:], []byte{0xFD, 0xFF, 0xFF, 0xFF, 0x10})
+	add("ole3-xls-subheader", o)
+	o2 := oleHeader(false, clsids["none"], 1)
+	copy(o2[512:], []byte{0xA0, 0x46, 0x1D, 0xF0})
+	add("ole3-ppt-subheader", o2)
+	o3 := oleHeader(false, clsids["none"], 2)
+	copy(o3[1200:], []byte("P\x00o\x00w\x00e\x00r\x00P\x00o\x00i\x00n\x00t\x00 D\x00o\x00c\x00u\x00m\x00e\x00n\x00t"))
+	add("ole3-ppt-name", o3)
+
+	// CRX, Matroska
+	crx := append([]byte("Cr24\x02\x00\x00\x00\x04\x00\x00\x00\x03\x00\x00\x00"), 1, 2, 3, 4, 5, 6, 7)
+	crx = append(crx, []byte("PK\x03\x04rest")...)
+	add("crx", crx)
+	add("mkv", append([]byte("\x1A\x45\xDF\xA3\x93\x42\x82\x88matroska"), 0x42, 0x87, 0x81, 0x04))
+	add("webm", append([]byte("\x1A\x45\xDF\xA3\x9F\x42\x86\x81\x01\x42\x82\x84webm"), 0x42, 0x87))
+
+	// text family extras
+	add("json-nested", []byte(strings.Repeat("[", 40)+`{"a":[1,2,{"b":null}]}`+strings.Repeat("]", 40)))
+	add("geojson", []byte(`{"type":"FeatureCollection","features":[{"type":"Feature","geometry":{"type":"Point","coordinates":[1,2]}}]}`))
+	add("har", []byte(`{"log":{"version":"1.2","creator":{"name":"x"},"entries":[]}}`))
+	add("gltf", []byte(`{"asset":{"version":"2.0"},"scenes":[{"nodes":[0]}]}`))
+	add("ndjson", []byte("{\"a\":1}\n{\"a\":2}\n[3]\n"))
+	add("csv", []byte("a,b,c\n1,2,3\n4,5,6\n"))
+	add("tsv", []byte("a\tb\tc\n1\t2\t3\n4\t5\t6\n"))
+	add("html-meta", []byte(`<!DOCTYPE html><html><head><meta charset="iso-8859-2"><title>t</title></head><body>x</body></html>`))
+	add("xml-enc", []byte(`<?xml version="1.0" encoding="ISO-8859-1"?><a>b</a>`))
+	add("svg", []byte(`<svg xmlns="http://www.w3.org/2000/svg" width="1" height="1"/>`))
+	add("php-shebang", []byte("#!/usr/bin/env php\n<?php echo 1;"))
+	add("python", []byte("#!/usr/bin/env python\nprint(1)\n"))
+	add("srt", []byte("1\n00:02:16,612 --> 00:02:19,376\nHello\n"))
+	add("vtt", []byte("WEBVTT\n\n00:01.000 --> 00:04.000\nHi\n"))
+	add("utf16le-bom", []byte{0xFF, 0xFE, 'a', 0, 'b', 0})
+	add("utf32be-bom", []byte{0, 0, 0xFE, 0xFF, 0, 0, 0, 'a'})
+	add("latin1", []byte("caf\xe9 cr\xe8me br\xfbl\xe9e"))
+	add("empty", nil)
 	return out
 }
